@@ -128,10 +128,19 @@ def suite_ops(ctx, case):
             elif k == 'setpair':
                 A = objs[op['k']]; n = A.rank
                 nm = lambda i: A.types[i] if i < n else 'zz%d' % i
-                line = 'ma.setpair %d %d %d %s' % (op['k'], op['i'], op['j'], fl(op['v']))
                 exp_refused = op['i'] >= n or op['j'] >= n
-                A[nm(op['i']), nm(op['j'])] = np.array(op['v'], dtype=float)
-                sd = shadow[op['k']][0].copy(); sd[:, op['i'], op['j']] = op['v']; sd[:, op['j'], op['i']] = op['v']
+                aug = op.get('aug') if not exp_refused else None
+                newv = np.array(op['v'], dtype=float)
+                if aug:      # augmented assignment / read-modify-write through the returned pair function: A[a,b] += v
+                    oldv = shadow[op['k']][0][:, op['i'], op['j']]
+                    newv = oldv + newv if aug in ('iadd', 'rmw') else oldv * newv
+                line = 'ma.setpair %d %d %d %s' % (op['k'], op['i'], op['j'], fl(newv))
+                if aug == 'iadd': A[nm(op['i']), nm(op['j'])] += np.array(op['v'], dtype=float)
+                elif aug == 'imul': A[nm(op['i']), nm(op['j'])] *= np.array(op['v'], dtype=float)
+                elif aug == 'rmw':
+                    view = A[nm(op['i']), nm(op['j'])]; view += np.array(op['v'], dtype=float); A[nm(op['i']), nm(op['j'])] = view
+                else: A[nm(op['i']), nm(op['j'])] = np.array(op['v'], dtype=float)
+                sd = shadow[op['k']][0].copy(); sd[:, op['i'], op['j']] = newv; sd[:, op['j'], op['i']] = newv
                 shadow[op['k']] = (sd, shadow[op['k']][1])
         except AssertionError:
             impl_out = 'ERR rejected'
@@ -239,7 +248,7 @@ def gen_case(rng, max_ops, maxL):
         else:
             i, j = rng.randrange(n), rng.randrange(n)
             if rng.random() < 0.1: i = n + rng.randrange(2)
-            ops.append({'op': 'setpair', 'k': k, 'i': i, 'j': j, 'v': [round(rng.uniform(-1, 1), 5) for _ in range(L)]})
+            ops.append({'op': 'setpair', 'k': k, 'i': i, 'j': j, 'v': [round(rng.uniform(-1, 1), 5) for _ in range(L)], 'aug': rng.choice([None, None, 'iadd', 'imul', 'rmw'])})
             if i < n: meta[k][2] += 1
     return {'ops': ops}
 
